@@ -78,6 +78,7 @@ type Lay struct {
 	OptAll  bool   `json:"optall"`        // pass every option explicitly (else only the non-default ones)
 	SameID  bool   `json:"sameid"`        // all children share one id number (only when their types differ)
 	NoThr   bool   `json:"nothr"`         // commit regime only: leave the Threshold option out (thresholds do not apply there)
+	Zones   int64  `json:"zones"`         // != 0: the time.Time values are held in varying locations (same instants), chosen from this seed
 	Late    bool   `json:"late"`          // timestamp regime: no commit info although every timestamp is after CommitInfoStart
 }
 
@@ -206,6 +207,34 @@ func (s *sym) absTime(t time.Time) int {
 }
 
 // stamps returns (Timestamp, Committed) of an element version at abstract time t
+var zoneList = []*time.Location{time.UTC, time.FixedZone("+02:00", 2*3600), time.FixedZone("-05:30", -(5*3600 + 1800)), time.Local}
+
+// inZone returns the same instant held in a location chosen by (layout seed, salt); with zones = 0 everything
+// stays as computed (UTC).  Variant 4 goes through time.Unix (no .UTC()).
+func (s *sym) inZone(t time.Time, salt int) time.Time {
+	if s.c.Lay.Zones == 0 {
+		return t
+	}
+	h := uint64(s.c.Lay.Zones)*0x9E3779B97F4A7C15 + uint64(salt)*0xBF58476D1CE4E5B9
+	h ^= h >> 29
+	switch n := int(h % 5); n {
+	case 4:
+		return time.Unix(t.Unix(), int64(t.Nanosecond()))
+	default:
+		return t.In(zoneList[n])
+	}
+}
+
+func (s *sym) stampsZ(t, salt int) (time.Time, *time.Time) {
+	ts, com := s.stamps(t)
+	ts = s.inZone(ts, salt)
+	if com != nil {
+		c := s.inZone(*com, salt+1)
+		com = &c
+	}
+	return ts, com
+}
+
 func (s *sym) stamps(t int) (time.Time, *time.Time) {
 	switch {
 	case s.c.O.Regime == "commit":
@@ -323,7 +352,7 @@ func (s *sym) datasource() *osm.HistoryDatasource {
 		for _, vi := range order {
 			v := vi + 1
 			ver := kl[vi]
-			ts, com := s.stamps(ver.T)
+			ts, com := s.stampsZ(ver.T, k*1000+v*2)
 			switch s.c.Kt[k0] {
 			case "n":
 				n := &osm.Node{ID: osm.NodeID(s.id(k)), Version: s.version(v), ChangesetID: s.cs(ver.Cs),
@@ -346,7 +375,7 @@ func (s *sym) datasource() *osm.HistoryDatasource {
 func (s *sym) ways() osm.Ways {
 	var ws osm.Ways
 	for i, p := range s.c.H.Par {
-		ts, com := s.stamps(p.T)
+		ts, com := s.stampsZ(p.T, 900000+i*2)
 		w := &osm.Way{ID: parentID, Version: i + 1, ChangesetID: s.cs(p.Cs), Visible: p.Vis, Timestamp: ts, Committed: com}
 		for _, r := range p.Refs {
 			wn := osm.WayNode{ID: osm.NodeID(s.id(r.K))}
@@ -363,7 +392,7 @@ func (s *sym) ways() osm.Ways {
 func (s *sym) relations() osm.Relations {
 	var rs osm.Relations
 	for i, p := range s.c.H.Par {
-		ts, com := s.stamps(p.T)
+		ts, com := s.stampsZ(p.T, 900000+i*2)
 		r := &osm.Relation{ID: parentID, Version: i + 1, ChangesetID: s.cs(p.Cs), Visible: p.Vis, Timestamp: ts, Committed: com}
 		for j, ref := range p.Refs {
 			m := osm.Member{Type: osmType(s.c.Kt[ref.K-1]), Ref: s.id(ref.K), Role: fmt.Sprintf("role%d", j)}
@@ -522,7 +551,7 @@ func runCase(c *Case) Got {
 						var perT [][]Ann
 						for t := 0; t <= s.hz; t++ {
 							cp := copyWay(w)
-							if e := cp.ApplyUpdatesUpTo(s.time(t)); e != nil {
+							if e := cp.ApplyUpdatesUpTo(s.inZone(s.time(t), 500000+t)); e != nil {
 								perT = append(perT, bad(len(w.Nodes)))
 								continue
 							}
@@ -545,7 +574,7 @@ func runCase(c *Case) Got {
 						var perT [][]Ann
 						for t := 0; t <= s.hz; t++ {
 							cp := copyRelation(rel)
-							if e := cp.ApplyUpdatesUpTo(s.time(t)); e != nil {
+							if e := cp.ApplyUpdatesUpTo(s.inZone(s.time(t), 500000+t)); e != nil {
 								perT = append(perT, bad(len(rel.Members)))
 								continue
 							}
